@@ -68,6 +68,20 @@ func (e StopError) Error() string {
 	return e.err.Error()
 }
 
+// syntaxError is reported when no prefix of the source parses as an expression.
+//
+// It stands in for wbnf's parser.ParseError, whose Error() renders the tree of every failed
+// alternative and re-renders each subtree once per enclosing level. For inputs as small as
+// "(1" or "[,1]" that takes minutes and yields megabytes of text, so every host that prints
+// the error (arrai eval, the shell, a server) appears to hang.
+type syntaxError struct {
+	src parser.Scanner
+}
+
+func (e syntaxError) Error() string {
+	return fmt.Sprintf("syntax error: no valid expression found\n%s", e.src.Context(parser.DefaultLimit))
+}
+
 // Parse parses input and returns the parsed Expr or an error.
 func (pc ParseContext) Parse(ctx context.Context, s *parser.Scanner) (ast.Branch, error) {
 	rscopes := []rel.Scope{baseScope(ctx)}
@@ -185,6 +199,10 @@ func (pc ParseContext) Parse(ctx context.Context, s *parser.Scanner) (ast.Branch
 		return nil, deepImportError
 	}
 	if err != nil {
+		switch err.(type) {
+		case parser.ParseError, parser.FatalError:
+			return nil, syntaxError{src: *s}
+		}
 		return nil, err
 	}
 	result := ast.FromParserNode(arraiParsers.Grammar(), v)
